@@ -6,7 +6,7 @@ replayed.  A fault *fires* when it changed at least one byte.
 """
 import re
 
-KINDS = ["torn", "flip", "garbage", "lose_line", "dup_line", "swap_lines", "lose_block", "dup_block",
+KINDS = ["run", "torn", "flip", "garbage", "lose_line", "dup_line", "swap_lines", "lose_block", "dup_block",
          "move_block", "interleave", "concat", "refold", "hostile_field", "token_subst"]
 
 HOSTILE_TZIDS = ["America", "../../etc/passwd", "/etc/passwd", "a" * 300, "", "Europe/Berlin\x00x",
@@ -112,6 +112,11 @@ def draw(rng, doc, kind, other=b""):
         return {"kind": kind, "k": k}
     if kind == "flip":
         return {"kind": kind, "at": [[rng.randrange(n), rng.randrange(1, 256)] for _ in range(rng.randint(1, 4))]}
+    if kind == "run":
+        # a stuck producer / a sector of one repeated pattern: a long run of one short byte pattern
+        pat = rng.choice(["\n", "\r\n", "\r", " ", "\t", "\\", '"', ";", ",", ":", "=", "\n ", "\r\n ", "\\n", "\\,",
+                          "%", "%2C", "\x00", "A", "=\"", ";X=", "\n\r", "BEGIN:X\r\n", "END:X\r\n", "\xc3", "\xef\xbb\xbf"])
+        return {"kind": kind, "k": rng.randrange(n + 1), "pat": pat, "count": rng.choice([50, 500, 5000, 20000])}
     if kind == "garbage":
         ln = rng.randint(1, 64)
         return {"kind": kind, "k": rng.randrange(n), "bytes": [rng.randrange(256) for _ in range(ln)],
@@ -194,6 +199,9 @@ def apply(doc, f):
             if pos < len(b):
                 b[pos] ^= mask
         return bytes(b)
+    if kind == "run":
+        k = min(f["k"], len(doc))
+        return doc[:k] + f["pat"].encode("latin-1") * f["count"] + doc[k:]
     if kind == "garbage":
         g = bytes(f["bytes"])
         k = min(f["k"], len(doc))
